@@ -125,3 +125,147 @@ Proof.
   intros Hr Hx. cbn [sstep]. unfold with_arr, with_val. rewrite Hr, Hx. split; [reflexivity|].
   intros xs Hxs. now rewrite Hxs.
 Qed.
+
+(* ---- Unique ---- *)
+
+Lemma aeq_list_arr l m : aeq (EArr l) (EArr m) = aeq_list l m.
+Proof. reflexivity. Qed.
+
+(* what is equal to something is equal to itself *)
+Lemma aeq_true_self a : forall b, aeq a b = true -> aeq a a = true.
+Proof.
+  induction a as [k c|k i|l IH] using elem_ind'; intros [k' d|k' j|m]; try discriminate.
+  - intros _. cbn. apply N.eqb_refl.
+  - rewrite !aeq_list_arr. revert m; induction IH as [|x l Hx Hl IHl]; intros [|y m]; cbn; try discriminate; [reflexivity|].
+    intros H. apply andb_true_iff in H. destruct H as [H1 H2]. rewrite (Hx y H1). cbn. now apply (IHl m).
+Qed.
+
+Lemma aeq_trans a : forall b c, aeq a b = true -> aeq b c = true -> aeq a c = true.
+Proof.
+  induction a as [k c0|k i|l IH] using elem_ind'; intros [k' d|k' j|m] [k'' e|k'' j'|n]; try discriminate.
+  - cbn. intros H1 H2. apply N.eqb_eq in H1. apply N.eqb_eq in H2. apply N.eqb_eq. congruence.
+  - rewrite !aeq_list_arr. revert m n; induction IH as [|x l Hx Hl IHl]; intros [|y m] [|z n]; cbn; try discriminate; [reflexivity|].
+    intros H1 H2. apply andb_true_iff in H1. apply andb_true_iff in H2. destruct H1 as [A1 A2], H2 as [B1 B2].
+    rewrite (Hx y z A1 B1). cbn. now apply (IHl m n).
+Qed.
+
+(* FIRST OCCURRENCES modulo Equals: the element at a position is kept exactly when no EARLIER element of the array
+   (kept or not) is equal to it *)
+Fixpoint first_occ_from (seen l : list elem) : list elem :=
+  match l with
+  | [] => []
+  | v :: r => if existsb (fun s => aeq s v) seen then first_occ_from (seen ++ [v]) r
+              else v :: first_occ_from (seen ++ [v]) r
+  end.
+Definition first_occ (l : list elem) : list elem := first_occ_from [] l.
+
+Definition covers (kept seen : list elem) : Prop :=
+  (forall w, In w kept -> In w seen) /\
+  (forall s, In s seen -> aeq s s = true -> exists w, In w kept /\ aeq w s = true).
+
+Lemma covers_exists kept seen v : covers kept seen ->
+  existsb (fun w => aeq w v) kept = existsb (fun s => aeq s v) seen.
+Proof.
+  intros [Hsub Hcov]. destruct (existsb (fun s => aeq s v) seen) eqn:E.
+  - apply existsb_exists in E. destruct E as (s & Hs & Hq).
+    destruct (Hcov s Hs (aeq_true_self s v Hq)) as (w & Hw & Hws).
+    apply existsb_exists. exists w. split; [exact Hw|]. eapply aeq_trans; eauto.
+  - destruct (existsb (fun w => aeq w v) kept) eqn:E'; [|reflexivity].
+    apply existsb_exists in E'. destruct E' as (w & Hw & Hq).
+    assert (existsb (fun s => aeq s v) seen = true) by (apply existsb_exists; exists w; auto). congruence.
+Qed.
+
+Lemma sunique_from_first_occ l : forall kept seen, covers kept seen ->
+  sunique_from kept l = first_occ_from seen l.
+Proof.
+  induction l as [|v r IH]; intros kept seen C; cbn [sunique_from first_occ_from]; [reflexivity|].
+  rewrite (covers_exists kept seen v C). destruct C as [Hsub Hcov].
+  destruct (existsb (fun s => aeq s v) seen) eqn:E.
+  - apply IH. split.
+    + intros w Hw. apply in_or_app. left. auto.
+    + intros s Hs Hss. apply in_app_or in Hs. destruct Hs as [Hs|[<-|[]]]; [auto|].
+      apply existsb_exists in E. destruct E as (s & Hs & Hq).
+      destruct (Hcov s Hs (aeq_true_self s v Hq)) as (w & Hw & Hws). exists w. split; [exact Hw|].
+      eapply aeq_trans; eauto.
+  - f_equal. apply IH. split.
+    + intros w Hw. apply in_app_or in Hw. apply in_or_app. destruct Hw as [Hw|Hw]; [left; auto|right; exact Hw].
+    + intros s Hs Hss. apply in_app_or in Hs. destruct Hs as [Hs|[<-|[]]].
+      * destruct (Hcov s Hs Hss) as (w & Hw & Hws). exists w. split; [apply in_or_app; left; exact Hw|exact Hws].
+      * exists v. split; [apply in_or_app; right; now left|exact Hss].
+Qed.
+
+Theorem unique_is_first_occurrences l : sunique l = first_occ l.
+Proof. apply sunique_from_first_occ. split; [intros w []|intros s []]. Qed.
+
+(* consequences: no two kept elements are equal; every element of the array is kept or equal to a kept one that
+   comes no later; an element that is not equal to itself (NaN, a Sensitive, a list that holds one) always stays *)
+Lemma first_occ_in seen l e : In e (first_occ_from seen l) -> In e l.
+Proof.
+  revert seen; induction l as [|v r IH]; intros seen; cbn [first_occ_from]; [intros []|].
+  destruct (existsb _ seen); cbn [In]; intros H; [right; eauto|destruct H; [now left|right; eauto]].
+Qed.
+
+Lemma first_occ_none_seen seen l e s : In e (first_occ_from seen l) -> In s seen -> aeq s e = false.
+Proof.
+  revert seen; induction l as [|v r IH]; intros seen; cbn [first_occ_from]; [intros []|].
+  destruct (existsb (fun s0 => aeq s0 v) seen) eqn:E; cbn [In]; intros H Hs.
+  - apply (IH (seen ++ [v])); [exact H|apply in_or_app; now left].
+  - destruct H as [<-|H].
+    + destruct (aeq s v) eqn:Q; [|reflexivity].
+      assert (existsb (fun s0 => aeq s0 v) seen = true) by (apply existsb_exists; eauto). congruence.
+    + apply (IH (seen ++ [v])); [exact H|apply in_or_app; now left].
+Qed.
+
+Lemma first_occ_pairwise l : forall seen, ForallOrdPairs (fun a b => aeq a b = false) (first_occ_from seen l).
+Proof.
+  induction l as [|v r IH]; intros seen; cbn [first_occ_from]; [constructor|].
+  destruct (existsb _ seen); [apply IH|]. constructor; [|apply IH].
+  apply Forall_forall. intros e He. apply (first_occ_none_seen (seen ++ [v]) r e v He).
+  apply in_or_app. right. now left.
+Qed.
+
+Theorem unique_no_two_equal l : ForallOrdPairs (fun a b => aeq a b = false) (sunique l).
+Proof. rewrite unique_is_first_occurrences. apply first_occ_pairwise. Qed.
+
+Theorem unique_elements_of l e : In e (sunique l) -> In e l.
+Proof. rewrite unique_is_first_occurrences. apply first_occ_in. Qed.
+
+Lemma first_occ_keeps_unequal seen l :
+  filter (fun e => negb (aeq e e)) (first_occ_from seen l) = filter (fun e => negb (aeq e e)) l.
+Proof.
+  revert seen; induction l as [|v r IH]; intros seen; cbn [first_occ_from]; [reflexivity|].
+  destruct (existsb (fun s => aeq s v) seen) eqn:E.
+  - apply existsb_exists in E. destruct E as (s & Hs & Hq). rewrite aeq_sym in Hq.
+    cbn [filter]. rewrite (aeq_true_self v s Hq). cbn. apply IH.
+  - cbn [filter]. destruct (negb (aeq v v)); [f_equal|]; apply IH.
+Qed.
+
+Theorem unique_keeps_never_equal l :
+  filter (fun e => negb (aeq e e)) (sunique l) = filter (fun e => negb (aeq e e)) l.
+Proof. rewrite unique_is_first_occurrences. apply first_occ_keeps_unequal. Qed.
+
+Lemma first_occ_covers l : forall seen e, In e l -> aeq e e = true ->
+  exists w, (In w seen \/ In w (first_occ_from seen l)) /\ aeq w e = true.
+Proof.
+  induction l as [|v r IH]; intros seen e Hin Hee; [destruct Hin|].
+  destruct Hin as [<-|He]; cbn [first_occ_from].
+  - destruct (existsb (fun s => aeq s v) seen) eqn:E.
+    + apply existsb_exists in E. destruct E as (s & Hs & Hq). eauto.
+    + exists v. split; [right; now left|exact Hee].
+  - destruct (IH (seen ++ [v]) e He Hee) as (w & Hw & Hq).
+    destruct (existsb (fun s => aeq s v) seen) eqn:E.
+    + destruct Hw as [Hw|Hw]; [|eauto]. apply in_app_or in Hw. destruct Hw as [Hw|[<-|[]]]; [eauto|].
+      apply existsb_exists in E. destruct E as (s & Hs & Hsv). exists s. split; [now left|]. eapply aeq_trans; eauto.
+    + exists w. split; [|exact Hq]. destruct Hw as [Hw|Hw]; [|right; now right].
+      apply in_app_or in Hw. destruct Hw as [Hw|[<-|[]]]; [now left|right; now left].
+Qed.
+
+Theorem unique_holds_an_equal_of_every_element l e : In e l -> aeq e e = true ->
+  exists w, In w (sunique l) /\ aeq w e = true.
+Proof.
+  intros He Hee. rewrite unique_is_first_occurrences.
+  destruct (first_occ_covers l [] e He Hee) as (w & [[]|Hw] & Hq). eauto.
+Qed.
+
+Lemma step_unique_total pool r l : arr_of pool r = Some l -> sstep pool (SUnique r) = OV (EArr (sunique l)).
+Proof. intros H. cbn [sstep]. unfold with_arr. now rewrite H. Qed.
